@@ -27,6 +27,8 @@ TEMPLATES = [
     ("fn", "f9", "fn f9 ( x ) { let assert [ y ] = x todo as \"s\" x . f ( 1 ) |> g ( _ , 2 ) }"),
     ("const", "c3", "const c3 = # ( 1 + 2 , k . v , \"s\" <> \"t\" , [ A , B ( 1 ) ] )"),
     ("alias", "A2", "type A2 ( a ) = fn ( a , m . T ) -> # ( a , List ( a ) )"),
+    # closers directly in front of a lambda's closing brace that is itself directly followed by a closer of the same kind
+    ("fn", "f10", "fn f10 ( xs ) { m . map ( xs , fn ( x ) { d ( x ) } ) [ fn ( ) { [ xs ] } ] # ( 1 , fn ( ) { # ( 1 , 2 ) } ) }"),
 ]
 
 
